@@ -95,11 +95,16 @@ VoteSnapCases ==
   UNION {{[flavor |-> "", img |-> img, steps |-> <<s>>] : s \in {x \in VoteSteps(img, NoFault) : x.k \in {"rv", "pv"}}} :
             img \in {i \in Imgs : i.snap # <<>> /\ (Len(i.log) = 0 \/ i.log[Len(i.log)][1] <= i.snap[1])}}
 
+\* images in which a configuration entry SURVIVED compaction below the snapshot (TrailingLogs): the log store ends with
+\* the bootstrap entry, the snapshot lies beyond it and carries a later configuration (a follower that lagged, was caught
+\* up by InstallSnapshot and keeps its old tail): the restarted server goes by the snapshot's configuration
+CfgTailImgs == { [ct |-> t, vt |-> 0, vc |-> "", dcommit |-> 0, log |-> <<<<1, 1, "cfg", "cfg">>>>, snap |-> <<s, t>>, scfg |-> "other"] :
+                   s \in {2, 3}, t \in 1..2 }
 RestartCases ==
   UNION {UNION {
      { [flavor |-> fl, img |-> [img EXCEPT !.dcommit = dc, !.vt = v[1], !.vc = v[2]], steps |-> <<Restart>>] :
          dc \in (IF fl = "ct" THEN 0..(Len(img.log) + 1) ELSE {0}), v \in {<<0, "">>, <<img.ct, "n2">>, <<img.ct - 1, "n1">>} }
-     : fl \in {"", "mono", "ct"} } : img \in Imgs }
+     : fl \in {"", "mono", "ct"} } : img \in Imgs \cup CfgTailImgs }
 
 AllCases == IF Suite = "restart" THEN RestartCases ELSE IF Suite = "vote3" THEN VoteSnapCases ELSE Cases
 
